@@ -8,6 +8,11 @@ stable = b["stable_pass"]
 if isinstance(stable, str):
     stable = ast.literal_eval(stable)
 stable = set(stable)
+def clean():
+    # Go tests run without HYDRAIDE_ROOT_PATH leave ignored data/ and settings/ directories next to
+    # the test packages; stale ones make TestGatewayPatch* fail on the next run
+    subprocess.run(["git", "-C", repo, "clean", "-fdXq", "--", "app", "sdk", "tests"], capture_output=True)
+clean()
 passed, failed = set(), set()
 env = dict(os.environ); env["GOPROXY"] = "off"; env.pop("GOFLAGS", None)
 for mod in [".", "sdk/go/hydraidego"]:
@@ -45,6 +50,7 @@ for attempt in range(2):
                 passed.add("%s::%s" % (e["Package"], e["Test"]))
         p.wait()
     missing = sorted(stable - passed)
+clean()
 print("stable=%d passed=%d failed=%d stable-missing=%d" % (len(stable), len(passed), len(failed), len(missing)))
 for m in missing[:40]:
     print("  NOT PASSING:", m, "(failed)" if m in failed else "(not run)")
